@@ -23,9 +23,10 @@ ASSUMPTIONS = [
     "DefaultHasher (affinity hash) is an oracle: the theorems quantify over it; the driver recomputes hash(seed, affinity key) and the correspondence compares the equality pattern of the keys",
     "Instant + Duration does not overflow (time is an unbounded N in the model); V6 flowinfo/scope_id are 0",
     "the output queue is drained after every call (the queue is FIFO and append-only, so per-call drains concatenate to the same stream the shell sees)",
-    "the socket shell lib/src/udp.rs (resolution through BackendMap, connected upstream sockets, NAT return demux by upstream token, write queues) is outside the theorems: it is exercised only by the e2e tier",
+    "shell model (coq/C19/Shell.v): upstream_sockets / upstream_to_flow / flow_to_upstream / flow_started / upstream_write_queues are one list of socket records (they are written together by on_open_upstream and erased together by on_close_flow); registering a socket with mio succeeds; metrics and logs are not represented",
 ]
-TRUSTED = ["translator props/c19.py:translate compares the admission order, the cap comparison, the two-key close_flow lookup, reschedule's emit-on-change and the slab free-list discipline with lib/src/protocol/udp/manager.rs and slab's lib.rs"]
+TRUSTED = ["black-box correspondence of the shell model: props/c19.py:shell_model_ops copies the backend index the implementation's load balancer picked into each send op; harness/src/bin/c19e.rs; coq/C19/ShellRun.v",
+           "translator props/c19.py:translate compares the admission order, the cap comparison, the two-key close_flow lookup, reschedule's emit-on-change and the slab free-list discipline with lib/src/protocol/udp/manager.rs and slab's lib.rs"]
 
 
 def _src(path):
@@ -289,6 +290,8 @@ def e2e_case(rng, cid):
     count = {}
     flips = rng.random() < 0.3
     for _ in range(rng.randint(5, 14)):
+        if rng.random() < 0.03:
+            ops.append(["bounce"])            # DeactivateListener + ActivateListener under live flows
         if flips and rng.random() < 0.2:
             wp = 1 - wp
             ops.append(["recluster", wp])     # cluster update flipping the affinity key under live flows
@@ -383,8 +386,7 @@ def extra_stage(tier, rng, work):
     # the shell MODEL (coq/C19/Shell.v) against the real shell: same scenarios, the load balancer's
     # choice copied from the observation, everything else predicted (ShellRun.v)
     mism = []
-    modelled = [c for c in cases if c.id in outs and not outs[c.id]["viol"] and outs[c.id]["panic"] is None
-                and not any(op[0] == "bounce" for op in c.ops)]
+    modelled = [c for c in cases if c.id in outs and not outs[c.id]["viol"] and outs[c.id]["panic"] is None]
     if modelled:
         mism, mprob = vlib.correspond(modelled, outs, "C19.ShellRun", "run_shell_case", os.path.join(work, "e2e_model"),
                                       ops_of=shell_model_ops)
@@ -401,16 +403,25 @@ def extra_stage(tier, rng, work):
     return dict(failures=failures, viols=viols, coverage=dict(shell_model_scenarios=len(modelled), shell_model_agree=len(modelled) - len(mism), e2e_cases=len(cases), e2e_datagrams_delivered=delivered, e2e_retried=retried))
 
 
-LEVEL_TEXT = ("Machine-checked proof (Coq 8.16) over an executable model of the sans-io UDP flow core (UdpManager + UdpFlow "
+LEVEL_TEXT = ("Machine-checked proof (Coq 8.16) over executable models of (1) the sans-io UDP flow core (UdpManager + UdpFlow "
               "+ exact slab free list): the manager's invariants as an inductive invariant over every input history, "
-              "stickiness, isolation, the admission bound, exactly-once teardown and the one-shot-timer contract with the "
-              "shell as theorems over all histories; the "
-              "model is tied to lib/src/protocol/udp on every run by a source translator and a differential "
-              "correspondence run of the real UdpManager against the extracted model, with the property's own oracle "
-              "evaluated on the implementation's output stream.")
+              "stickiness, isolation (replies to the creating client; forwarding exact, in order, never duplicated), the "
+              "admission bound, exactly-once teardown and the one-shot-timer contract as theorems over all histories; and "
+              "(2) the socket shell around it (lib/src/udp.rs drain_outputs and its handlers, shadow flow table, per-flow "
+              "upstream sockets, write queues, timer, close_all_flows) composed with the manager: drain_outputs always "
+              "terminates, upstream sockets opened = closed + open under every handler, at rest every socket belongs to a "
+              "live established flow of the incarnation it was opened for and is connected to that flow's backend, NAT "
+              "return reaches only that incarnation's client, close_all_flows leaks no socket, write queues never "
+              "duplicate or reorder. Both models are tied to /repo on every run: source translator, differential run of "
+              "the real UdpManager and WriteQueue against the extracted core model, and the black-box scenarios (real "
+              "worker thread, loopback sockets) replayed through the extracted shell model; the property's own oracles are "
+              "evaluated on the implementation in both tiers.")
 LEVEL_NOTE = ("Trusted: Coq kernel; extraction (ExtrOcamlBasic) and ocaml/driver.ml for the correspondence only; the "
-              "affinity hash is an oracle; time is unbounded. The socket shell lib/src/udp.rs is not in the theorems: it is "
-              "exercised black-box in the thorough tier only (real worker thread, loopback sockets: who received which "
-              "payload, the cap, slot release); the shell's one-shot timer is modelled in the driver (op fire).")
+              "affinity hash, the load balancer's choice, connect() and per-send outcomes are oracles the theorems quantify "
+              "over; time is unbounded; mio registration is assumed to succeed. Not proved (compared with the model on "
+              "every e2e scenario instead): that on_send_to_backend selects the socket of the datagram's own flow through "
+              "in_flight_flow / the shadow table. Not covered: SCM hand-off of a UDP listener with live flows; WouldBlock on "
+              "real sockets (the write queue is driven in-process through the cfg(sozu_verif) hook 0407268 and in the "
+              "model with scripted send outcomes).")
 TECHNIQUE = "Rocq/Coq proof over an executable Gallina model + differential correspondence (extracted OCaml vs real crate)"
 CLAIMED = True
